@@ -4,7 +4,7 @@
 (* the properties quantify over, and the per-case expectation record that  *)
 (* is exported next to each program.                                       *)
 (***************************************************************************)
-EXTENDS WireSem, SequencesExt
+EXTENDS WireSem, SequencesExt, Randomization
 
 RECURSIVE Pow2(_)
 Pow2(k) == IF k = 0 THEN 1 ELSE 2 * Pow2(k - 1)
@@ -101,12 +101,15 @@ FamilyG(p, n, kinds, wraps) ==
 (* ======================================================================== *)
 FlCl(c) == c \in {"c", "b"}
 FlEr(c) == c \in {"e", "b"}
+\* a printable name for an edge set (EdgeCode overflows TLC's integers beyond n = 5)
+EdgeStr(n, E) == ConcatStr([k \in 1..(n * n) |-> IF <<((k - 1) \div n) + 1, ((k - 1) % n) + 1>> \in E
+                                                  THEN ToString(((k - 1) \div n) + 1) \o ToString(((k - 1) % n) + 1) \o "." ELSE ""])
 RProg(n, E, fl, injd) ==
   LET succ(i) == SeqOfSet({j \in 1..n : <<i, j>> \in E})
       leaves  == [i \in 1..n |-> Func(PN(i), [x \in DOMAIN succ(i) |-> TN(succ(i)[x])], TN(i), FlCl(fl[i]), FlEr(fl[i]))]
       ncl     == \E i \in 1..n : FlCl(fl[i])
       ner     == \E i \in 1..n : FlEr(fl[i])
-      key     == "R/n" \o ToString(n) \o "/e" \o ToString(EdgeCode(n, E)) \o "/" \o ConcatStr(fl) \o "/" \o injd
+      key     == "R/n" \o ToString(n) \o "/e" \o (IF n <= 5 THEN ToString(EdgeCode(n, E)) ELSE EdgeStr(n, E)) \o "/" \o ConcatStr(fl) \o "/" \o injd
   IN Prog(key, "R", [i \in 1..n |-> Tok(TN(i))], leaves, <<>>,
           <<Inj("Inject", <<>>, TN(1), IF injd = "ce" THEN TRUE ELSE ncl, IF injd = "ce" THEN TRUE ELSE ner,
                 [i \in 1..n |-> ItL(i)])>>)
@@ -115,6 +118,12 @@ FamilyR(p, n) ==
     /\ \A j \in 2..n : \E i \in 1..(j - 1) : <<i, j>> \in E
     /\ \E fl \in [1..n -> {"p", "e", "c", "b"}] :
          \E injd \in {"ce", "min"} : p = RProg(n, E, fl, injd)
+
+\* larger random DAGs (n up to 7): k random edge sets of about n+2 edges, two random flavour assignments each (TLC -seed decides)
+FamilyRBig(p, n, k) ==
+  \E E \in RandomSetOfSubsets(k, n + 2, {e \in (1..n) \X (1..n) : e[1] < e[2]}) :
+    /\ \A j \in 2..n : \E i \in 1..(j - 1) : <<i, j>> \in E
+    /\ \E fl \in RandomSubset(2, [1..n -> {"p", "e", "c", "b"}]) : p = RProg(n, E, fl, "ce")
 
 (* ======================================================================== *)
 (* Family K (ambiguity): two sources of one type t, for every pair of       *)
